@@ -32,7 +32,7 @@ func c08state(i int) map[string]any {
 	spec := map[string]any{"l": []any{int64(1), int64(2)}}
 	obj := map[string]any{
 		"apiVersion": "v1", "kind": "ConfigMap",
-		"metadata": map[string]any{"name": "o", "namespace": "ns", "resourceVersion": fmt.Sprint(100 + i)},
+		"metadata": map[string]any{"name": "o", "namespace": "ns", "resourceVersion": fmt.Sprint(100 + i), "uid": "uid-1"},
 		"data":     data, "spec": spec,
 	}
 	switch i {
@@ -46,6 +46,9 @@ func c08state(i int) map[string]any {
 		obj["status"] = map[string]any{"extra": "z"}
 	case 5:
 		delete(data, "a")
+	case 6:
+		// the same content under another uid (object re-created with identical content)
+		obj["metadata"].(map[string]any)["uid"] = "uid-2"
 	}
 	return obj
 }
@@ -113,9 +116,17 @@ func c08project(filter string, obj map[string]any) c08proj {
 type c08ev struct {
 	typ   kemtypes.WatchEventType
 	state int
+	// initial: an Added delivered as part of an informer's initial list (isInInitialList=true);
+	// it means exactly what any other Added means
+	initial bool
 }
 
-func (e c08ev) String() string { return fmt.Sprintf("%s(s%d)", e.typ, e.state) }
+func (e c08ev) String() string {
+	if e.initial {
+		return fmt.Sprintf("%s-initial(s%d)", e.typ, e.state)
+	}
+	return fmt.Sprintf("%s(s%d)", e.typ, e.state)
+}
 
 type c08cfg struct {
 	filter   string
@@ -170,7 +181,7 @@ func c08run(cfg c08cfg, seq []c08ev) (sig, what, outcome string) {
 		line := fmt.Sprintf("%s:%s:full=%v", ev.typ, rv, cfg.keepFull)
 		switch ev.typ {
 		case kemtypes.WatchEventAdded:
-			inf.OnAdd(u, false)
+			inf.OnAdd(u, ev.initial)
 		case kemtypes.WatchEventModified:
 			inf.OnUpdate(nil, u)
 		case kemtypes.WatchEventDeleted:
@@ -244,21 +255,27 @@ func c08run(cfg c08cfg, seq []c08ev) (sig, what, outcome string) {
 func TestVerifC08(t *testing.T) {
 	r := vres.New("c08")
 	defer r.Finish()
-	states := []int{0, 1, 2, 4}
+	states := []int{0, 1, 2, 4, 6}
 	if vres.Thorough() {
-		states = []int{0, 1, 2, 3, 4, 5}
+		states = []int{0, 1, 2, 3, 4, 5, 6}
 	}
 	maxLen := 3
 	var alpha []c08ev
 	for _, ty := range []kemtypes.WatchEventType{kemtypes.WatchEventAdded, kemtypes.WatchEventModified, kemtypes.WatchEventDeleted} {
 		for _, s := range states {
-			alpha = append(alpha, c08ev{ty, s})
+			alpha = append(alpha, c08ev{ty, s, false})
+		}
+	}
+	// Added as part of an initial list: two states in the quick tier, all in the thorough tier
+	for _, st := range states {
+		if vres.Thorough() || st == 0 || st == 2 {
+			alpha = append(alpha, c08ev{kemtypes.WatchEventAdded, st, true})
 		}
 	}
 	// multi-output filters need the list-changing state even in the quick tier
 	alphaL := append([]c08ev{}, alpha...)
 	if !vres.Thorough() {
-		alphaL = append(alphaL, c08ev{kemtypes.WatchEventAdded, 3}, c08ev{kemtypes.WatchEventModified, 3})
+		alphaL = append(alphaL, c08ev{kemtypes.WatchEventAdded, 3, false}, c08ev{kemtypes.WatchEventModified, 3, false})
 	}
 	var subsets [][]kemtypes.WatchEventType
 	all := []kemtypes.WatchEventType{kemtypes.WatchEventAdded, kemtypes.WatchEventModified, kemtypes.WatchEventDeleted}
